@@ -168,6 +168,10 @@ class SymB:
     def copy(self, a):
         return shim.NP.array(a)
 
+    def rng_state(self, k):
+        """put NumPy's global generator into an arbitrary state (named k)"""
+        shim.NP.random.reset("G%s" % k)
+
     def inv(self, A):
         return shim.NP.LA.inv(shim._obj(A))
 
@@ -355,6 +359,10 @@ class RealB:
 
     def copy(self, a):
         return _np.array(a)
+
+    def rng_state(self, k):
+        _np.random.seed(1000 + int(k))
+        _np.random.normal(size=int(k) + 1)  # advance as some earlier training would
 
     def inv(self, A):
         return _np.linalg.inv(_np.array(A, dtype=float))
